@@ -316,9 +316,13 @@ func (g *gm) applyBatch(op Op) {
 			g.fail("%v", err)
 		}
 	}
-	g.classifyBatch(op.DS, op.Ents)
-	g.noteRefs(op.DS, op.Ents)
-	g.m.Write(op.DS, op.Ents)
+	ents := op.Ents
+	if op.Via != "store" {
+		ents = kit.StripNulls(ents) // what the stream parser makes of the payload
+	}
+	g.classifyBatch(op.DS, ents)
+	g.noteRefs(op.DS, ents)
+	g.m.Write(op.DS, ents)
 }
 
 func (g *gm) applyTxn(op Op) {
@@ -329,9 +333,13 @@ func (g *gm) applyTxn(op Op) {
 		}
 	}
 	for _, ds := range kit.SortedKeys(op.Parts) {
-		g.classifyBatch(ds, op.Parts[ds])
-		g.noteRefs(ds, op.Parts[ds])
-		g.m.Write(ds, op.Parts[ds])
+		ents := op.Parts[ds]
+		if op.Via == "http" {
+			ents = kit.StripNulls(ents)
+		}
+		g.classifyBatch(ds, ents)
+		g.noteRefs(ds, ents)
+		g.m.Write(ds, ents)
 	}
 	if len(op.Parts) > 1 {
 		g.cls["txn-multi-dataset"] = true
